@@ -154,4 +154,176 @@ Section Nonint.
         injection Ea as -> -> _ ->. injection Eb as -> -> _ ->.
         cbn [nth_error]. apply A6. lia.
   Qed.
+
+  (* ---------- operations on the far ends ---------- *)
+  Lemma lrel_upd (f : device * peer -> device * peer) : (forall x, fst (f x) = fst x) ->
+    forall i l1 l2, lrel i l1 l2 -> forall x, lrel i (upd_nth l1 x f) (upd_nth l2 x f).
+  Proof.
+    intros Hf. induction 1 as [i|i y l1 l2 Hi R IH|x1 x2 l1 l2 Hc R IH]; intros x; cbn [upd_nth]; [constructor| |].
+    - destruct x; [apply lrel_same; assumption|apply lrel_same; [assumption|apply IH]].
+    - destruct x; [apply lrel_j; [rewrite !Hf; exact Hc|exact R]|apply lrel_j; [exact Hc|apply IH]].
+  Qed.
+  (* ... on device j's far end, in one of the runs only *)
+  Lemma lrel_upd_left (f : device * peer -> device * peer) : (forall x, fst (f x) = fst x) ->
+    forall i l1 l2, lrel i l1 l2 -> forall x, (i + x)%nat = j -> lrel i (upd_nth l1 x f) l2.
+  Proof.
+    intros Hf. induction 1 as [i|i y l1 l2 Hi R IH|x1 x2 l1 l2 Hc R IH]; intros x Hx; cbn [upd_nth]; [constructor| |].
+    - destruct x; [exfalso; apply Hi; lia|]. apply lrel_same; [assumption|apply IH; lia].
+    - destruct x; [|exfalso; lia]. apply lrel_j; [rewrite Hf; exact Hc|exact R].
+  Qed.
+  Lemma lrel_upd_right (f : device * peer -> device * peer) : (forall x, fst (f x) = fst x) ->
+    forall i l1 l2, lrel i l1 l2 -> forall x, (i + x)%nat = j -> lrel i l1 (upd_nth l2 x f).
+  Proof.
+    intros Hf. induction 1 as [i|i y l1 l2 Hi R IH|x1 x2 l1 l2 Hc R IH]; intros x Hx; cbn [upd_nth]; [constructor| |].
+    - destruct x; [exfalso; apply Hi; lia|]. apply lrel_same; [assumption|apply IH; lia].
+    - destruct x; [|exfalso; lia]. apply lrel_j; [rewrite Hf; exact Hc|exact R].
+  Qed.
+  Lemma lok_upd (f : device * peer -> device * peer) : (forall x, fst (f x) = fst x) ->
+    forall i l, lok i l -> forall x, lok i (upd_nth l x f).
+  Proof.
+    intros Hf. induction 1 as [i|i d p l I Hv K IH]; intros x; cbn [upd_nth]; [constructor|].
+    destruct x.
+    - specialize (Hf (d, p)). destruct (f (d, p)) as [d' p']. cbn [fst] in Hf. subst d'. constructor; assumption.
+    - constructor; [assumption|assumption|apply IH].
+  Qed.
+
+  (* ---------- dev_enqueue_actions ---------- *)
+  Lemma enq_devs_ok com client tele args tgts : In com (power_coms ++ query_coms) ->
+    forall i l l' n, lok i l -> enq_devs l com client tele args tgts = Ok (l', n) ->
+      lok i l' /\ length l' = length l /\ n = fold_right (fun dp acc => Z.of_nat (length (enqueue_dev (edev_of (fst dp)) com tgts)) + acc) 0 l /\
+      forall k d p, nth_error l k = Some (d, p) -> exists d', nth_error l' k = Some (d', p) /\ same_cfg d d'.
+  Proof.
+    intros Hcom i l l' n K. revert l' n. induction K as [i|i d p l [I Hrc] Hv K IH]; intros l' n; cbn [enq_devs].
+    - intros H; inversion H; subst. split; [constructor|]. split; [reflexivity|]. split; [reflexivity|]. intros [|k]; discriminate.
+    - destruct (fold_append_invG compress client tele args (enqueue_dev (edev_of d) com tgts) d I) as (d1 & E1 & I1 & S1 & _ & _ & R1 & _).
+      { intros q Hin. now apply (enqueue_dev_props d com tgts q). }
+      rewrite E1. destruct (enq_devs l com client tele args tgts) as [[r' m]| | | |] eqn:E2; try discriminate.
+      intros H; inversion H; subst. destruct (IH _ _ eq_refl) as (A1 & A2 & A3 & A4).
+      set (d2 := match enqueue_dev (edev_of d) com tgts with [] => d1 | _ => expedite d1 end).
+      assert (H2 : DInvRG compress d2 /\ same_cfg d d2).
+      { unfold d2. destruct (enqueue_dev (edev_of d) com tgts).
+        - split; [split; [exact I1|rewrite R1; exact Hrc]|exact S1].
+        - assert (Hrc1 : 0 <= dv_retry_count d1) by (rewrite R1; exact Hrc).
+          destruct (expedite_invG compress d1 (conj I1 Hrc1)) as (X1 & X2 & _). split; [exact X1|eapply same_cfg_trans; eassumption]. }
+      destruct H2 as [X1 X2].
+      split; [constructor; [exact X1|rewrite (same_cfg_plugs _ _ X2); exact Hv|exact A1]|].
+      split; [cbn; now rewrite A2|]. split; [cbn [fold_right fst]; now rewrite A3|].
+      intros [|k] d0 p0 Hn; cbn [nth_error] in *; [inversion Hn; subst; exists d2; auto|exact (A4 k d0 p0 Hn)].
+  Qed.
+
+  Lemma enq_devs_sim com client tele args tgts :
+    forall i l1 l2, lrel i l1 l2 -> forall l1' n1 l2' n2,
+      enq_devs l1 com client tele args tgts = Ok (l1', n1) -> enq_devs l2 com client tele args tgts = Ok (l2', n2) ->
+      lrel i l1' l2' /\ n1 = n2.
+  Proof.
+    induction 1 as [i|i [d p] l1 l2 Hi R IH|[d1 p1] [d2 p2] l1 l2 Hc R IH]; intros l1' n1 l2' n2; cbn [enq_devs].
+    - intros H1 H2; inversion H1; inversion H2; subst. split; [constructor|reflexivity].
+    - destruct (fold_left _ _ (Ok d)) as [dd| | | |]; try discriminate.
+      destruct (enq_devs l1 com client tele args tgts) as [[r1 m1]| | | |] eqn:E1; try discriminate.
+      destruct (enq_devs l2 com client tele args tgts) as [[r2 m2]| | | |] eqn:E2; try discriminate.
+      intros H1 H2; inversion H1; inversion H2; subst. destruct (IH _ _ _ _ eq_refl eq_refl) as [A1 A2].
+      split; [apply lrel_same; assumption|now rewrite A2].
+    - cbn [fst] in Hc. rewrite (edev_of_same _ _ Hc).
+      destruct (fold_left _ _ (Ok d1)) as [da| | | |] eqn:Fa; try discriminate.
+      destruct (fold_left _ _ (Ok d2)) as [db| | | |] eqn:Fb; try discriminate.
+      destruct (enq_devs l1 com client tele args tgts) as [[r1 m1]| | | |] eqn:E1; try discriminate.
+      destruct (enq_devs l2 com client tele args tgts) as [[r2 m2]| | | |] eqn:E2; try discriminate.
+      intros H1 H2; inversion H1; inversion H2; subst. destruct (IH _ _ _ _ eq_refl eq_refl) as [A1 A2].
+      split; [|now rewrite A2]. apply lrel_j; [|exact A1]. cbn [fst].
+      (* the static configuration of j is untouched by appending actions / expedite *)
+      assert (G : forall qs x y, fold_left (fun od a => match od with Ok z => append_client_action z a client tele args | e => e end) qs (Ok x) = Ok y -> same_cfg x y).
+      { induction qs as [|q qs IHq]; intros x y; cbn [fold_left]; [intros H; inversion H; apply same_cfg_refl|].
+        unfold append_client_action at 2. destruct (assoc_script (qa_com q) (dv_scripts x)) as [s0|].
+        - intros H. apply IHq in H. eapply same_cfg_trans; [|exact H]. repeat split.
+        - intros H. exfalso. clear - H. induction qs as [|q' qs IHq']; cbn [fold_left] in H; [discriminate|auto]. }
+      assert (Ge : forall x, same_cfg x (expedite x)) by (intros x; unfold expedite; destruct (connected x); repeat split).
+      pose proof (G _ _ _ Fa) as Sa. pose proof (G _ _ _ Fb) as Sb.
+      assert (Sab : same_cfg da db).
+      { destruct Sa as (a1 & a2 & a3 & a4 & a5), Sb as (b1 & b2 & b3 & b4 & b5), Hc as (c1 & c2 & c3 & c4 & c5). repeat split; congruence. }
+      destruct (enqueue_dev (edev_of d1) com tgts); [exact Sab|].
+      destruct (Ge da) as (a1 & a2 & a3 & a4 & a5), (Ge db) as (b1 & b2 & b3 & b4 & b5), Sab as (c1 & c2 & c3 & c4 & c5). repeat split; congruence.
+  Qed.
+
+  (* ---------- states and single operations ---------- *)
+  Definition hrel (h1 h2 : hstate) : Prop :=
+    h_now h1 = h_now h2 /\ lrel 0 (h_devs h1) (h_devs h2) /\ mstore (h_store h1) = mstore (h_store h2).
+  Definition hok (h : hstate) : Prop := lok 0 (h_devs h).
+  Definition to_j (op : hop) : Prop := match op with HPlan x _ | HFinish x _ | HFeed x _ | HPeerClose x => x = j | _ => False end.
+
+  Lemma mstore_app a b : mstore (a ++ b) = mstore a ++ mstore b.
+  Proof. unfold mask_store. apply map_app. Qed.
+
+  (* the same operation on both sides *)
+  Lemma hstep_sim h1 h2 op h1' o1 h2' o2 : hrel h1 h2 -> hok h1 -> hok h2 -> valid_op op ->
+    hstep rmatch compress sc h1 op = Ok (h1', o1) -> hstep rmatch compress sc h2 op = Ok (h2', o2) ->
+    hrel h1' h2' /\ hok h1' /\ hok h2' /\ (forall k, k <> j -> evs_of k (o_evs o1) = evs_of k (o_evs o2)) /\ o_count o1 = o_count o2.
+  Proof.
+    intros (Hn & R & M) K1 K2 Hv. unfold hok in *.
+    destruct op as [t|i pl|i ok|i b|i| |nodes|com client tele args tgts|]; cbn [hstep]; try (intros E1 E2; inversion E1; inversion E2; subst; unfold hrel; cbn [h_now h_devs h_store o_evs o_count out0];
+      (split; [split; [reflexivity || exact Hn|split; [try exact R; try (apply lrel_upd; [intros [? ?]; reflexivity|exact R])|try exact M]]|
+       split; [try exact K1; try (apply lok_upd; [intros [? ?]; reflexivity|exact K1])|split; [try exact K2; try (apply lok_upd; [intros [? ?]; reflexivity|exact K2])|split; [reflexivity|reflexivity]]]]); fail).
+    - destruct Hv.
+    - intros E1 E2; inversion E1; inversion E2; subst; unfold hrel; cbn [h_now h_devs h_store o_evs o_count out0].
+      split; [split; [exact Hn|split; [exact R|rewrite !mstore_app, M; reflexivity]]|]. split; [exact K1|]. split; [exact K2|]. split; reflexivity.
+    - destruct (enq_devs (h_devs h1) com client tele args tgts) as [[l1 n1]| | | |] eqn:E1; try discriminate.
+      destruct (enq_devs (h_devs h2) com client tele args tgts) as [[l2 n2]| | | |] eqn:E2; try discriminate.
+      intros X1 X2; inversion X1; inversion X2; subst; unfold hrel; cbn [h_now h_devs h_store o_evs o_count].
+      destruct (enq_devs_sim com client tele args tgts 0 _ _ R _ _ _ _ E1 E2) as [A1 A2].
+      destruct (enq_devs_ok com client tele args tgts Hv 0 _ _ _ K1 E1) as (B1 & _). destruct (enq_devs_ok com client tele args tgts Hv 0 _ _ _ K2 E2) as (B2 & _).
+      split; [split; [exact Hn|split; [exact A1|exact M]]|]. split; [exact B1|]. split; [exact B2|]. split; [reflexivity|exact A2].
+    - destruct (pass_devs rmatch compress sc (h_now h1) 0 (h_devs h1) (h_store h1) None) as [[[[l1 s1] t1] e1]| | | |] eqn:E1; try discriminate.
+      destruct (pass_devs rmatch compress sc (h_now h2) 0 (h_devs h2) (h_store h2) None) as [[[[l2 s2] t2] e2]| | | |] eqn:E2; try discriminate.
+      intros X1 X2; inversion X1; inversion X2; subst; unfold hrel; cbn [h_now h_devs h_store o_evs o_count].
+      rewrite <- Hn in E2.
+      assert (PN : tmo_pos None) by (intros x Hx; discriminate Hx).
+      destruct (pass_devs_sim _ _ _ _ _ _ _ _ _ _ _ _ _ _ _ _ R K1 K2 M PN PN E1 E2) as (A1 & A2 & A3 & A4 & A5 & _).
+      split; [split; [exact Hn|split; [exact A1|exact A4]]|]. split; [exact A2|]. split; [exact A3|]. split; [exact A5|reflexivity].
+  Qed.
+
+  (* an operation on device j's far end, in one run only *)
+  Lemma hstep_j h op : hok h -> to_j op ->
+    exists h', hstep rmatch compress sc h op = Ok (h', out0) /\ hok h' /\ (forall h2, hrel h h2 -> hrel h' h2) /\ (forall h1, hrel h1 h -> hrel h1 h').
+  Proof.
+    intros K Hj. unfold hok in *. destruct op as [t|i pl|i ok|i b|i| |nodes|com client tele args tgts|]; try contradiction; cbn [to_j] in Hj; subst i; cbn [hstep];
+      eexists; (split; [reflexivity|]); cbn [h_devs];
+      (split; [apply lok_upd; [intros [? ?]; reflexivity|exact K]|]);
+      (split; [intros h2 (Hn & R & M); split; [exact Hn|split; [apply lrel_upd_left; [intros [? ?]; reflexivity|exact R|reflexivity]|exact M]]
+              |intros h1 (Hn & R & M); split; [exact Hn|split; [apply lrel_upd_right; [intros [? ?]; reflexivity|exact R|reflexivity]|exact M]]]).
+  Qed.
+
+  (* ---------- op lists that differ only in operations on device j's far end ---------- *)
+  Inductive orel : list hop -> list hop -> Prop :=
+  | orel_nil : orel [] []
+  | orel_both op l1 l2 : valid_op op -> orel l1 l2 -> orel (op :: l1) (op :: l2)
+  | orel_left op l1 l2 : to_j op -> orel l1 l2 -> orel (op :: l1) l2
+  | orel_right op l1 l2 : to_j op -> orel l1 l2 -> orel l1 (op :: l2).
+
+  Definition all_evs (k : nat) (outs : list hout) : list ev := flat_map (fun o => evs_of k (o_evs o)) outs.
+
+  Theorem noninterference : forall ops1 ops2, orel ops1 ops2 -> forall h1 h2 h1' outs1 h2' outs2,
+    hrel h1 h2 -> hok h1 -> hok h2 ->
+    run rmatch compress sc h1 ops1 = Ok (h1', outs1) -> run rmatch compress sc h2 ops2 = Ok (h2', outs2) ->
+    hrel h1' h2' /\ hok h1' /\ hok h2' /\ forall k, k <> j -> all_evs k outs1 = all_evs k outs2.
+  Proof.
+    induction 1 as [|op l1 l2 Hv R IH|op l1 l2 Hj R IH|op l1 l2 Hj R IH]; intros h1 h2 h1' outs1 h2' outs2 Hr K1 K2; cbn [run].
+    - intros E1 E2; inversion E1; inversion E2; subst. split; [exact Hr|]. split; [exact K1|]. split; [exact K2|]. reflexivity.
+    - destruct (hstep rmatch compress sc h1 op) as [[ha oa]| | | |] eqn:Ea; try discriminate.
+      destruct (hstep rmatch compress sc h2 op) as [[hb ob]| | | |] eqn:Eb; try discriminate.
+      destruct (hstep_sim _ _ _ _ _ _ _ Hr K1 K2 Hv Ea Eb) as (A1 & A2 & A3 & A4 & _).
+      destruct (run rmatch compress sc ha l1) as [[hc oc]| | | |] eqn:Ec; try discriminate.
+      destruct (run rmatch compress sc hb l2) as [[hd od]| | | |] eqn:Ed; try discriminate.
+      intros X1 X2; inversion X1; inversion X2; subst.
+      destruct (IH _ _ _ _ _ _ A1 A2 A3 Ec Ed) as (B1 & B2 & B3 & B4).
+      split; [exact B1|]. split; [exact B2|]. split; [exact B3|]. intros k Hk. unfold all_evs in *. cbn [flat_map]. now rewrite (A4 k Hk), (B4 k Hk).
+    - destruct (hstep_j h1 op K1 Hj) as (ha & Ea & Ka & Ra & _). rewrite Ea.
+      destruct (run rmatch compress sc ha l1) as [[hc oc]| | | |] eqn:Ec; try discriminate.
+      intros X1 E2; inversion X1; subst.
+      destruct (IH _ _ _ _ _ _ (Ra _ Hr) Ka K2 Ec E2) as (B1 & B2 & B3 & B4).
+      split; [exact B1|]. split; [exact B2|]. split; [exact B3|]. intros k Hk. unfold all_evs in *. cbn [flat_map out0 o_evs]. exact (B4 k Hk).
+    - destruct (hstep_j h2 op K2 Hj) as (hb & Eb & Kb & _ & Rb). rewrite Eb.
+      destruct (run rmatch compress sc hb l2) as [[hd od]| | | |] eqn:Ed; try discriminate.
+      intros E1 X2; inversion X2; subst.
+      destruct (IH _ _ _ _ _ _ (Rb _ Hr) K1 Kb E1 Ed) as (B1 & B2 & B3 & B4).
+      split; [exact B1|]. split; [exact B2|]. split; [exact B3|]. intros k Hk. unfold all_evs in *. cbn [flat_map out0 o_evs]. exact (B4 k Hk).
+  Qed.
 End Nonint.
